@@ -524,6 +524,7 @@ Section Denom.
     intros sh.
     match goal with |- hoare _ (if ?b then _ else _) _ _ => destruct b end; [apply hoare_panic; auto|].
     match goal with |- hoare _ (if ?b then _ else _) _ _ => destruct b end; [apply hoare_fail; auto|].
+    match goal with |- hoare _ (if ?b then _ else _) _ _ => destruct b end; [apply hoare_fail; auto|].
     eapply hoare_bind with (Q1 := fun _ s => JC c s /\ Rk dn a (assets s)).
     { apply (HS_with_assets c _ (Rk dn a)); [apply HS_of_inv; jc_auto c | assets_frame]. }
     intros vsr.
